@@ -63,6 +63,7 @@
 //	 "applied":[{n,i,t,k,p,x}]                     entries/snapshots the application applied in this event
 //	                                               (k = "S" for a snapshot install up to index i)
 //	 "add":[{id, Msg}] , "del":[ids]               network delta (messages added / removed)
+//	 "sd":{disk digest without log}                the sender's durable state at the moment its messages left
 //	 "nodes":[{NodeState}]                         the nodes whose projected state CHANGED in this event
 //	                                               (all nodes in the first record); a consumer keeps the
 //	                                               last NodeState per id to reconstruct the global state
